@@ -77,5 +77,11 @@ META["C12"] = {"engine": "V-election", "design_ref": "DESIGN.md §4 Engine V, §
                "level_text": ("Exploration of generated delivery orders, losses and restarts for 3..5 members and 2..3 candidates against the real handlers and the real voter code; "
                               "the schedule is part of the case, so failures replay exactly. The kill -9 trials of a real 3-process cluster named in the quantifier are not built."),
                "level_note": "Trusted: the harness network (net.Pipe ends) and its quiescence detection through the injected logger; announcements / voteSucced are not executed; four genuine election defects are listed as known findings and their triggers are excluded by construction."}
+ENGINES["P-persistence"]["props"] = ["C07", "C08"]
+META["C08"] = {"engine": "P-persistence", "design_ref": "DESIGN.md §4 Engine P, §5 C08",
+               "technique": "fault injection by enumeration of truncation offsets over rapid-generated histories; metamorphic oracle (cut at byte o recovers like cut at the preceding record boundary) + second workload and second restart",
+               "level_text": ("Fault enumeration over crash points of the newest append file and its value file: drawn offsets covering the header and all 64 residues in the quick tier, every byte offset of the file "
+                              "for a quarter of the thorough cases (exhaustive per case, flagged in evidence). Each crash point costs two to four real restarts."),
+               "level_note": "Trusted: truncation as the crash model (system-call boundary, no page-cache loss); in-package snapshot comparison; the C07 known findings are excluded by construction."}
 _NOT_BUILT = "check not built yet in this session (planned in DESIGN.md); not claimed rather than faked"
 NOT_APPLICABLE = {f"C{i:02d}": _NOT_BUILT for i in range(1, 21)}
